@@ -18,8 +18,8 @@ import (
 var (
 	blsP   = bf.BLSP
 	blsR   = bf.BLSR
-	fpGen  = &bf.Gen{P: blsP, Bits: 384, C: 0, Extra: []*big.Int{new(big.Int).Rsh(blsP, 1), bf.Pow2(380), bf.Pow2(381), bf.Mod(bf.Pow2(384), blsP), bf.Mod(bf.Pow2(768), blsP)}}
-	scGen  = &bf.Gen{P: blsR, Bits: 256, C: 0, Extra: []*big.Int{new(big.Int).Rsh(blsR, 1), bf.Pow2(254), bf.Mod(bf.Pow2(256), blsR), bf.Mod(bf.Pow2(512), blsR), bf.B("0xffffffff00000001"), bf.B("0xffffffff00000000")}}
+	fpGen  = &bf.Gen{P: blsP, Bits: 384, C: 0, MontRBits: 384, Extra: []*big.Int{new(big.Int).Rsh(blsP, 1), bf.Pow2(380), bf.Pow2(381), bf.Mod(bf.Pow2(384), blsP), bf.Mod(bf.Pow2(768), blsP)}}
+	scGen  = &bf.Gen{P: blsR, Bits: 256, C: 0, MontRBits: 256, Extra: []*big.Int{new(big.Int).Rsh(blsR, 1), bf.Pow2(254), bf.Mod(bf.Pow2(256), blsR), bf.Mod(bf.Pow2(512), blsR), bf.B("0xffffffff00000001"), bf.B("0xffffffff00000000")}}
 	monFF  = "TestVerifFF"
 	monTow = "TestVerifFFTower"
 )
@@ -267,6 +267,24 @@ func runBase[T comparable, PT baseElt[T]](t *testing.T, d baseDesc, extra func(c
 			}
 			if eq {
 				c.Inc(n + ":isequal:true")
+			}
+			// a value whose stored words differ from x's only in the low (or only
+			// in the high) 32-bit halves: equality must look at whole words
+			if d.gen.MontRBits > 0 {
+				nv := d.gen.MontNeighbour(r, xv)
+				nb := set(nv)
+				neq := nv.Cmp(xv) == 0
+				if !neq {
+					c.Inc(n + ":isequal:stored-words-differ-in-one-half")
+				}
+				if (PT(&x).IsEqual(&nb) == 1) != neq || (PT(&nb).IsEqual(&x) == 1) != neq {
+					viol("wrong-predicate:"+n+".IsEqual", monFF, "x", hx, "y", hexBig(nv), "what", "stored Montgomery words differ in one 32-bit half only")
+				}
+				var df T
+				PT(&df).Sub(&x, &nb)
+				if (PT(&df).IsZero() == 1) != neq {
+					viol("wrong-predicate:"+n+".IsZero", monFF, "x", hx, "y", hexBig(nv), "what", "x - y for stored words differing in one 32-bit half")
+				}
 			}
 			var one T
 			PT(&one).SetOne()
